@@ -153,6 +153,7 @@ def transform_case(sname, cfg, hist, seed, res=None):
         return (y ** 2).mean() - ld.mean() if step else None
 
     try:
+        torch.manual_seed(555 + seed)  # the history before saving may draw random numbers (dropout in training steps): owned, so that replays agree
         run_hist(A, hist, call_train)
     except Exception as e:
         if res is not None:
@@ -205,6 +206,7 @@ def dist_case(dname, cfg, hist, seed, res=None):
         return -lp.mean() if step else None
 
     try:
+        torch.manual_seed(555 + seed)  # the history before saving may draw random numbers (dropout in training steps): owned, so that replays agree
         run_hist(A, hist, call_train)
     except Exception as e:
         if res is not None:
